@@ -237,6 +237,25 @@ func (e *expGen) piece(depth int) string {
 	return e.exp(depth)
 }
 
+// c02Expr: the text stored as the setting "v" under VarExp
+func c02Expr(g *Gen, txt string) {
+	no := normOpts{Sep: ".", VarExp: true}
+	var c *ucfg.Config
+	var err error
+	obs, d := "None", ""
+	if p, msg := guard(func() { c, err = ucfg.NewFrom(map[string]interface{}{"v": txt}, ucfg.PathSep("."), ucfg.VarExp) }); p {
+		obs, d = "(Some VNil)", "PANIC "+msg // never equal to the model's tree
+	} else if err != nil {
+		d = descErr(err)
+	} else {
+		dump := ucfg.VerifDump(c)
+		obs, d = "(Some "+coqValue(dump)+")", descValue(dump)
+	}
+	g.Add(Case{Coq: fmt.Sprintf("CExpr %s %s %s", no.coq(), coqStr(txt), obs),
+		Desc: map[string]interface{}{"kind": "expr", "text": txt, "observed": d},
+		Tags: []string{"expr"}, Nontrivial: true})
+}
+
 func genC02(g *Gen, c08 bool) {
 	r := g.R
 	c08Mode = c08
@@ -270,7 +289,12 @@ func genC02(g *Gen, c08 bool) {
 	for i, s := range w {
 		c02Cases(g, s, fmt.Sprintf("witness:%d", i))
 	}
-	names := []string{"a", "b", "c", "d", "n.x", "n.y", "e1", "e2", "r1", "r2", "l.0", "zz"}
+	if !c08 {
+		for _, txt := range []string{"$$", "$}", "$", "a$", "100 US$$", "block {$}", "${a}$$", "${a}$}", "$$${a}", "$${a}", "x$$y$}z", "${a:$$}", "${a:x$}", "$$$", "$}$", "${", "${a", "a${"} {
+			c02Expr(g, txt)
+		}
+	}
+	names := []string{"a", "b", "c", "d", "n.x", "n.y", "e1", "e2", "r1", "r2", "l.0", "zz", "n.x.k", "a.b.c"}
 	if c08 {
 		// names that pass through other settings (which may be references themselves)
 		names = append(names, "a.b", "b.k", "n", "c.x", "a.n.x")
@@ -312,13 +336,25 @@ func genC02(g *Gen, c08 bool) {
 		if r.P(1, 4) {
 			s.Root["l"] = []interface{}{val(), val()}
 		}
+		if r.P(1, 5) {
+			// a primitive where deeper names expect a namespace: a lookup through it fails with
+			// another error than "missing", and the search must still go on to the Env configs
+			if r.Bool() {
+				s.Root["n"] = randScalar(r)
+			} else {
+				set(s.Root, "n.x", randScalar(r))
+			}
+		}
 		nenv := r.Intn(3)
 		for k := 0; k < nenv; k++ {
 			e := map[string]interface{}{}
-			for _, n := range []string{"e1", "e2", "a", "n.x", "zz"} {
+			for _, n := range []string{"e1", "e2", "a", "n.x", "zz", "n.x.k", "a.b.c"} {
 				if r.P(1, 2) {
 					set(e, n, val())
 				}
+			}
+			if r.P(1, 6) {
+				e["n"] = randScalar(r)
 			}
 			s.Envs = append(s.Envs, e)
 		}
@@ -335,6 +371,17 @@ func genC02(g *Gen, c08 bool) {
 				}
 			}
 			s.Resolvers = append(s.Resolvers, t)
+		}
+		// the text of an expression: what NewFrom makes of it (escapes, operators, nesting)
+		if !c08 && r.P(1, 2) {
+			txt := eg.exp(0)
+			switch r.Intn(4) {
+			case 0:
+				txt = eg.lit() + eg.lit() + eg.lit()
+			case 1:
+				txt += eg.lit()
+			}
+			c02Expr(g, txt)
 		}
 		if r.P(1, 2) && len(s.Root) > 1 {
 			// split the settings over two (or three) merges in random order
